@@ -9,7 +9,7 @@ from __future__ import annotations
 from .. import nf
 from ..model import AnalysisError
 from ..values import ExtObj, Num
-from .common import GAS, OIL, POSITIVE, WATER, cmp_decisions, only, returns, run
+from .common import GAS, OIL, POSITIVE, WATER, cmp_decisions, interp, only, returns, run
 
 LEVEL = "proof"
 
@@ -55,6 +55,23 @@ def check(ctx):
         "d/dpressure b_water_McCain == b_water_McCain_dp (polynomial identity in Q[p,T])",
         nf.diff(par.value.nf, "pressure"), der.value.nf,
     )
+
+    # ---- C13-a (options added later): parent and derivative are two functions of the same arguments - when both gain an
+    # optional parameter, the identity has to hold for every value of it, not only at the default (at which the rest of
+    # the checks evaluate new parameters): a pressure-dependent factor multiplied into both breaks the product rule
+    it_free = interp(ctx)
+    it_free.pin_defaults = False
+    fpar, fder = P.func(WATER + "b_water_McCain"), P.func(WATER + "b_water_McCain_dp")
+    if set(fpar.params) != {"temperature", "pressure"} or set(fder.params) != {"temperature", "pressure"}:
+        par_f = only(it_free.run_function(WATER + "b_water_McCain"), "b_water_McCain", ctx, "C13-a")
+        it_free2 = interp(ctx)
+        it_free2.pin_defaults = False
+        der_f = only(it_free2.run_function(WATER + "b_water_McCain_dp"), "b_water_McCain_dp", ctx, "C13-a")
+        ctx.identity(
+            "C13-a", WATER + "b_water_McCain_dp:return for every option value", f.where(),
+            "d/dpressure b_water_McCain == b_water_McCain_dp with every parameter (including later additions) symbolic",
+            nf.diff(par_f.value.nf, "pressure"), der_f.value.nf,
+        )
 
     # ---- C13-i the hand-coded derivatives are closed forms: none of them evaluates a function of the package at two
     # arguments that differ by a constant step and subtracts (a finite difference is the derivative only in real
